@@ -256,6 +256,9 @@ def reductions(c):
 
 
 # ---- bounded: the library against an independent OPD computation on real lenses ---------------------------------
+ACC = []      # (independent path, library's accumulated path) of every bundle traced by independent_opd since the last clear
+
+
 def independent_opd(lens, Hx, Hy, wl, Px, Py):
     """OPD from first principles: paths from a common object-space wavefront to the chief-ray reference sphere"""
     import numpy as np
@@ -268,7 +271,14 @@ def independent_opd(lens, Hx, Hy, wl, Px, Py):
         D0 = np.array([sg.L[0], sg.M[0], sg.N[0]])
         Pi = np.array([sg.x[-1], sg.y[-1], sg.z[-1]])
         Di = np.array([sg.L[-1], sg.M[-1], sg.N[-1]])
-        return P0, D0, Pi, Di, sg.opd[-1].copy()
+        # the ray's optical path from first principles: index of each medium times the length of the segment crossed in it
+        # (not the library's running sum, which is compared with this one in a clause of its own)
+        path_ = np.zeros_like(sg.x[-1])
+        for k_ in range(len(sg.surfaces) - 1):
+            seg = np.sqrt((sg.x[k_ + 1] - sg.x[k_]) ** 2 + (sg.y[k_ + 1] - sg.y[k_]) ** 2 + (sg.z[k_ + 1] - sg.z[k_]) ** 2)
+            path_ = path_ + abs(float(np.ravel(sg.surfaces[k_].material_post.n(wl))[0])) * seg
+        ACC.append((path_.copy(), sg.opd[-1].copy()))
+        return P0, D0, Pi, Di, path_
     P0c, D0c, Pic, Dic, opdc = total(0.0, 0.0)
     C = Pic[:, 0]
     pz = lens.paraxial.XPL() + lens.surface_group.positions[-1][0]
@@ -333,6 +343,23 @@ def _bounded(ct, tier, seed):
             L_.add_field(y=y_)
         return L_
     lenses.append(('CookeTriplet with fields (-20, 0, 14)', _cooke_negative_fields))
+
+    def _immersed_object():
+        # a finite object embedded in a medium other than air (water), object-height fields
+        from optiland.optic import Optic
+        from optiland.materials import IdealMaterial
+        o = Optic()
+        o.add_surface(index=0, thickness=30.0, material=IdealMaterial(n=1.333, k=0))
+        o.add_surface(index=1, radius=25.0, thickness=5.0, material=IdealMaterial(n=1.6, k=0), is_stop=True)
+        o.add_surface(index=2, radius=-20.0, thickness=60.0)
+        o.add_surface(index=3)
+        o.set_aperture('EPD', 6.0)
+        o.set_field_type('object_height')
+        for y_ in (0.0, 1.5, 2.0):
+            o.add_field(y=y_)
+        o.add_wavelength(0.55, is_primary=True)
+        return o
+    lenses.append(('singlet with the object immersed in water', _immersed_object))
     for lname, mk in lenses:
         try:
             L = mk()
@@ -348,9 +375,14 @@ def _bounded(ct, tier, seed):
                 wf = wavefront.Wavefront(L, fields=[(0.0, Hy)], wavelengths=wls, num_rays=5, distribution='ring')
                 for j, wl in enumerate(wls):
                     lib = np.array(wf.data[0][j][0], dtype=float)
+                    del ACC[:]
                     ind = independent_opd(L, 0.0, Hy, wl, wf.distribution.x.copy(), wf.distribution.y.copy())
                     ok = np.allclose(lib, ind, rtol=0, atol=2e-6, equal_nan=True)
                     cases += 1
+                    for mine, theirs in ACC:
+                        note('C09.runtime.accumulated_path_is_sum_of_index_times_segment_length',
+                             np.allclose(mine, theirs, rtol=1e-11, atol=1e-9, equal_nan=True),
+                             '%s Hy=%s wl=%s max |diff| %.3e mm' % (lname, Hy, wl, np.nanmax(np.abs(mine - theirs))), {'lens': lname, 'Hy': Hy, 'wl': wl})
                     note('C09.runtime.opd_equals_independent_reference_sphere_computation', ok,
                          '%s Hy=%s wl=%s max |diff| %.3e waves' % (lname, Hy, wl, np.nanmax(np.abs(lib - ind))), {'lens': lname, 'Hy': Hy, 'wl': wl})
         except Exception as ex:
